@@ -710,6 +710,10 @@ func CheckParallel(r *Run) []Finding {
 			}
 		}
 	}
+	if e.RdvTimedOut.Load() {
+		add("C03", "only %d of the %d functions that are runnable from the start were executing at the same time although the limit is %d and nothing else was running (every goroutine of the process was blocked): capacity is lost", e.RdvSeen.Load(), scn.Rdv, concLimit(s, scn))
+	}
+
 	if lim := concLimit(s, scn); lim > 0 && int(e.MaxInflight.Load()) > lim {
 		add("C03", "%d user functions of one parallel were executing at once; the limit is %d", e.MaxInflight.Load(), lim)
 	}
@@ -795,6 +799,39 @@ func Differential(base, mod *Run) []Finding {
 		}
 	}
 	return out
+}
+
+// RdvPlan returns, for a parallel directive, the units whose invocations have
+// no dependency (tasks, element functions, and the End function of an empty or
+// nil collection) and how many such invocations the scenario produces.
+func RdvPlan(s *Spec, scn *Scenario) (units []int, n int) {
+	if s.Kind != "parallel" {
+		return nil, 0
+	}
+	for _, pt := range s.PTasks {
+		units = append(units, pt.Unit)
+		n++
+	}
+	coll := func(unit, c int, end *EndSpec) {
+		l := 0
+		if c < len(scn.Colls) {
+			l = len(scn.Colls[c])
+		}
+		if l > 0 {
+			units = append(units, unit)
+			n += l
+		} else if end != nil {
+			units = append(units, end.Unit)
+			n++
+		}
+	}
+	for _, sl := range s.Slices {
+		coll(sl.Unit, sl.Coll, sl.End)
+	}
+	for _, mp := range s.Maps {
+		coll(mp.Unit, mp.Coll, mp.End)
+	}
+	return units, n
 }
 
 // GateCandidates lists (gated provider unit, predicate unit) pairs usable for
